@@ -36,7 +36,7 @@ ASSUMPTIONS = [
 TIERS = {"quick": dict(nshards=16, exh_len={"MultiDict": 2, "Headers": 2, "HeaderSet": 3}, rand=900, rand_len=(3, 40)),
          "thorough": dict(nshards=64, exh_len={"MultiDict": 3, "Headers": 3, "HeaderSet": 4}, rand=6000, rand_len=(3, 40))}
 EXHAUSTIVE_SUBSPACES = {
-    "quick": ["all histories of length <= 2 over the fixed operation-instance sets of MultiDict (38 instances) and Headers (48), length <= 3 for HeaderSet (22), from 11 (MultiDict, Headers) / 9 (HeaderSet) initial states, including mappings whose collections are empty"],
+    "quick": ["all histories of length <= 2 over the fixed operation-instance sets of MultiDict (38 instances) and Headers (52), length <= 3 for HeaderSet (22), from 11 (MultiDict, Headers) / 9 (HeaderSet) initial states, including mappings whose collections are empty"],
     "thorough": ["all histories of length <= 3 for MultiDict and Headers from 11 initial states; length <= 4 for HeaderSet (2 initial states at length 4)"],
 }
 K = ["a", "A", "b"]
@@ -297,7 +297,8 @@ def h_ops():
         ops += [("add", k, "1"), ("add", k, "x"), ("set", k, "2"), ("setitem", k, "x"), ("setlist", k, ("1", "2")), ("del", k), ("remove", k),
                 ("pop", k), ("setdefault", k, "2")]
     ops += [("popidx",), ("popnone",), ("popitem",), ("setlistdefault", "a", ("x", "1")), ("setlistdefault", "b", ("2",)),
-            ("update", 0, "a"), ("update", 1, "A"), ("update", 2, "b"), ("update", 3, "a"), ("extend", 0, "a"), ("extend", 1, "b"), ("extend", 2, "A"),
+            ("update", 0, "a"), ("update", 1, "A"), ("update", 2, "b"), ("update", 3, "a"), ("update", 4, "A"), ("update", 5, "b"), ("ior_iter", "a"), ("extend_iter", "b"),
+            ("extend", 0, "a"), ("extend", 1, "b"), ("extend", 2, "A"),
             ("clear",), ("ior", "a"), ("setidx", "A"), ("setslice", "b"), ("delidx",), ("delslice",), ("copy", "a"), ("or", "b"), ("popdefault", "A"), ("add_header", "b"),
             # a value the container refuses (line break): the call raises and, in the model, nothing happens
             ("refused", "set", "a"), ("refused", "setitem", "A"), ("refused", "add", "b"), ("refused", "setdefault", "z")]
@@ -381,9 +382,15 @@ def h_apply(W, h, m, op):
         elif kind == 2:
             h.update({k: "x"})
             m.set(k, "x")
-        else:
+        elif kind == 3:
             h.update(MultiDict([(k, "1"), (k, "2")]))
             m.setlist(k, ["1", "2"])
+        elif kind == 4:
+            h.update(iter([(k, "7")]))  # any iterable of pairs is a valid argument, also one that can be read only once
+            m.set(k, "7")
+        else:
+            h.update(p_ for p_ in [(k, "8")])
+            m.set(k, "8")
     elif name == "extend":
         kind, k = op[1], op[2]
         if kind == 0:
@@ -403,6 +410,13 @@ def h_apply(W, h, m, op):
     elif name == "ior":
         h |= {op[1]: ["1", "2"]}
         m.setlist(op[1], ["1", "2"])
+    elif name == "ior_iter":
+        h |= zip([op[1]], ["9"])
+        m.set(op[1], "9")
+    elif name == "extend_iter":
+        h.extend(p_ for p_ in [(op[1], "1"), (op[1], "2")])
+        m.add(op[1], "1")
+        m.add(op[1], "2")
     elif name == "setidx":
         try:
             h[0] = (op[1], "x")
